@@ -404,6 +404,9 @@ func H_C09_object_observers_pure() {
 	default:
 		verifCatch(func() { a.Get(hBytesStr(1)) })
 		verifCatch(func() { a.GetInt(k1) })
+		// deriving operations that fail (a key the receiver lacks) fail without a trace in the receiver
+		verifCatch(func() { a.Pluck(k1, hBytesStr(2)) })
+		verifCatch(func() { a.Pluck("missing") })
 	}
 	verifAssert(verifAnd(pa.unchanged(), pb.unchanged()), "a non-mutating object operation leaves receiver and argument unchanged")
 	verifReach("end")
